@@ -287,6 +287,34 @@ def standard(prop, tier, seed, engines, assumptions, known_witnesses=None, extra
             else:
                 r.violations.append((C.write_replay(prop, payload), "no-failing-input-found"))
             break
+    # 2b. D3: the synchronisation skeleton of the anchored source files vs the committed baseline
+    from . import skeleton
+    nfiles, sk = skeleton.compare(prop)
+    r.cov["skeleton_files_compared"] = nfiles
+    r.cov["skeleton_mismatches"] = len(sk)
+    if sk and not r.violations:
+        # search the implementation for a failing schedule/input before reporting
+        searchers = [e for e in engines if getattr(e, "model_free", False)]
+        found = False
+        if searchers:
+            old_tier = r.tier
+            r.tier = "thorough"
+            r._monitor_hits = []
+            r.d1(searchers[:8])
+            r.tier = old_tier
+            for h in [h for h in r._monitor_hits if mine(h["clause"])]:
+                if not r.is_known(h["engine"], h["clause"]):
+                    path = C.write_replay(prop, {"kind": "property-monitor", "engine": h["engine"].name, "case": h["case"],
+                                                 "impl_output": h["impl"], "clause": h["clause"], "detail": h["detail"],
+                                                 "skeleton_diff": sk[0][1]})
+                    r.violations.append((path, ""))
+                    found = True
+                    break
+        if not found:
+            path = C.write_replay(prop, {"kind": "correspondence", "broken": "D3 synchronisation skeleton of %s differs from the baseline the models were written against (skeleton/*.skel)" % sk[0][0],
+                                         "diff": sk[0][1], "files": [f for f, _ in sk]})
+            r.violations.append((path, "no-failing-input-found"))
+
     # 3. proof failure
     if not proof_ok and not r.violations:
         pf = r.proof_failure
